@@ -82,7 +82,7 @@ var fedProtected map[string]bool
 func runFED14(r *core.Run) {
 	const prop = "C14"
 	W := r.W
-	e := newFedEnv(r, true)
+	e := newFedEnvA(r, true, fedAbstractMode(r))
 	s := e.spec
 	// protected coordinates and decisions
 	auth := &fedAuthorizer{r: r, decisions: map[string]authDecision{}}
